@@ -62,7 +62,12 @@ func safeApply(ac applyCase) (ch *mongokit.Changes, err error, panicked bool) {
 			panicked = true
 		}
 	}()
-	ch, err = mongokit.Apply(ac.doc, ac.query, ac.update, ac.upsert, ac.filters)
+	// every application gets a private copy of the update document, as every
+	// driver call does (bsonkit.Transform): Apply stores operand values in the
+	// target document without copying, so a later operator of the same update
+	// can write through them into the update document itself; sharing one
+	// update between two runs would compare runs on different inputs
+	ch, err = mongokit.Apply(ac.doc, ac.query, bsonkit.Clone(ac.update), ac.upsert, ac.filters)
 	return
 }
 
@@ -592,7 +597,7 @@ func oracleAllOrNothing(r *rng, n int, st *oracleStats) []oracleFailure {
 					pan = true
 				}
 			}()
-			res, err = clone.Update(&bson.D{}, &u, nil, 0, 0, filters)
+			res, err = clone.Update(&bson.D{}, bsonkit.Clone(&u), nil, 0, 0, filters)
 		}()
 		if len(st.Samples) < 3 {
 			st.Samples = append(st.Samples, fmt.Sprintf("%d docs, update %s", k, enc(u)))
@@ -630,7 +635,11 @@ func oracleAllOrNothing(r *rng, n int, st *oracleStats) []oracleFailure {
 			if !failed {
 				idErr := strings.Contains(err.Error(), "_id is immutable") || strings.Contains(err.Error(), "duplicate")
 				if !idErr {
-					sink.add("C11:rejected-but-apply-succeeds", "Collection.Update rejects an update that Apply accepts on every document: "+err.Error(), []string{enc(u)})
+					det := []string{enc(u)}
+					for _, d := range docs {
+						det = append(det, enc(d))
+					}
+					sink.add("C11:rejected-but-apply-succeeds", "Collection.Update rejects an update that Apply accepts on every document: "+err.Error(), det)
 				}
 			}
 			continue
